@@ -34,9 +34,10 @@ VARIABLES
     dcur,    \* index of the current description
     orcs,    \* oracles of the descriptions used so far
     outs,    \* first outcome per <<d, prune>>
+    reached, \* first reachability observation per <<d, prune>>
     snaps    \* first snapshot per d
 
-tvars == <<svars, tid, l, fails, notes, mode, dcur, orcs, outs, snaps>>
+tvars == <<svars, tid, l, fails, notes, mode, dcur, orcs, outs, reached, snaps>>
 
 S  == Sessions[tid]
 Ev == S.events[l]
@@ -48,10 +49,10 @@ Put(f, x, v) == IF Has(f, x) THEN f ELSE f @@ (x :> v)
 TraceInit ==
     /\ tid \in DOMAIN Sessions
     /\ l = 1 /\ fails = {} /\ notes = {} /\ mode = "solve" /\ dcur = 1
-    /\ orcs = <<>> /\ outs = <<>> /\ snaps = <<>>
+    /\ orcs = <<>> /\ outs = <<>> /\ snaps = <<>> /\ reached = <<>>
     /\ desc = Sessions[tid].descs[1] /\ orc = Null
     /\ pc = "idle" /\ prune = FALSE /\ nodes = <<>>
-    /\ prob = Null /\ rstrat = Null /\ rew = Null /\ fstrat = Null /\ res = Null
+    /\ prob = Null /\ rstrat = Null /\ rew = Null /\ fstrat = Null /\ res = Null /\ ro = Null
     /\ hist = [b \in BOOLEAN |-> Null]
 
 Proto(ok, name) == IF ok THEN {} ELSE {"Protocol." \o name \o " pc=" \o pc}
@@ -63,7 +64,7 @@ TraceSnap ==
     /\ fails' = fails \cup (IF Has(snaps, Ev.d) /\ snaps[Ev.d] # Ev.snap
                             THEN {"C10.DescSame d=" \o S2(Ev.d)} ELSE {})
     /\ notes' = notes \cup (IF Has(snaps, Ev.d) THEN {"C10.snapcompared"} ELSE {})
-    /\ UNCHANGED <<svars, mode, dcur, orcs, outs>>
+    /\ UNCHANGED <<svars, mode, dcur, orcs, outs, reached>>
 
 TraceCall ==
     /\ IsEvent("Call")
@@ -74,7 +75,16 @@ TraceCall ==
     /\ dcur' = Ev.d /\ mode' = Ev.mode
     /\ prob' = Null /\ rstrat' = Null /\ rew' = Null /\ fstrat' = Null
     /\ fails' = fails \cup Proto(pc = "idle", "Call")
-    /\ UNCHANGED <<res, hist, notes, outs, snaps>>
+    /\ UNCHANGED <<res, ro, hist, notes, outs, reached, snaps>>
+
+\* the reachability phase does not depend on the pruning flag (C01, C04)
+PruneSame ==
+    LET key == <<dcur, ~prune>>
+    IN  IF ~Has(reached, key) \/ Len(Ev.prob) # desc.n \/ Len(Ev.rstrat) # desc.n THEN {}
+        ELSE {"C01.PruneSame s=" \o S2(s) :
+                 s \in {s \in 1..desc.n : ~FixNear(Fx(Ev.prob[s]), Fx(reached[key].prob[s]), 2)}}
+             \cup {"C04.PruneSame s=" \o S2(s) :
+                 s \in {s \in 1..desc.n : Ev.rstrat[s] # reached[key].rstrat[s]}}
 
 \* Reach . RStrat : the hook reports both values at once
 TraceReach ==
@@ -82,10 +92,15 @@ TraceReach ==
     /\ fails' = fails \cup Proto(pc = "called", "ReachDone")
                       \cup ReachClauses(desc, orc, Ev.prob)
                       \cup RStratClauses(desc, orc, Ev.prob, Ev.rstrat)
-    /\ notes' = notes \cup {"C01.checked"} \cup (IF orc.exact THEN {"C01.exact"} ELSE {})
+                      \cup PruneSame
+                      \cup RelReachClauses(S, dcur, prune, Ev.prob, Ev.rstrat, reached, orcs)
+    /\ reached' = Put(reached, <<dcur, prune>>, [prob |-> Ev.prob, rstrat |-> Ev.rstrat])
+    /\ notes' = notes \cup {"C01.checked"}
+                      \cup (IF Has(reached, <<dcur, ~prune>>) THEN {"C01.prunesame"} ELSE {})
+                      \cup (IF HasRel(S) /\ dcur = 2 /\ Has(reached, <<1, prune>>) THEN {"C13.compared"} ELSE {}) \cup (IF orc.exact THEN {"C01.exact"} ELSE {})
                       \cup (IF \E s \in 1..desc.n : s \in orc.zero THEN {"C01.haszero"} ELSE {})
     /\ prob' = Ev.prob /\ rstrat' = Ev.rstrat /\ pc' = "strategies"
-    /\ UNCHANGED <<desc, orc, prune, nodes, rew, fstrat, res, hist, mode, dcur, orcs, outs, snaps>>
+    /\ UNCHANGED <<desc, orc, prune, nodes, rew, fstrat, res, ro, hist, mode, dcur, orcs, outs, snaps>>
 
 \* RestrictP1 . PrunePath* . PruneDone . ClearRound* . ClearDone  (confluent:
 \* PruneConfluent of MC_Solver), observed through the hook before the reward phase
@@ -101,14 +116,16 @@ TraceCond ==
                              Cardinality({j \in DOMAIN desc.tr[s] : desc.tr[s][j].t \in ZeroRep(prob)}) >= 2
                         THEN {"C03.multidead"} ELSE {})
     /\ pc' = "conditioned"
-    /\ UNCHANGED <<desc, orc, prune, prob, rstrat, rew, fstrat, res, hist, mode, dcur, orcs, outs, snaps>>
+    /\ ro' = IF pc = "strategies" /\ mode = "solve"
+             THEN RewardOracle(desc, orc, prob, rstrat, prune) ELSE [ok |-> FALSE]
+    /\ UNCHANGED <<desc, orc, prune, prob, rstrat, rew, fstrat, res, hist, mode, dcur, orcs, outs, reached, snaps>>
 
 \* outcome bookkeeping shared by Return / Raise / Timeout
 Outcome(o) ==
     LET key == <<dcur, prune>>
     IN  /\ outs' = Put(outs, key, o)
         /\ res' = o /\ pc' = "idle"
-        /\ hist' = IF hist[prune] = Null THEN [hist EXCEPT ![prune] = o.rep] ELSE hist
+        /\ hist' = IF hist[prune] = Null THEN [hist EXCEPT ![prune] = [rep |-> o.rep]] ELSE hist
 
 SameResult(o) ==
     LET key == <<dcur, prune>>
@@ -120,9 +137,7 @@ ShouldBeNoSolution == prune /\ 1 \in orc.zero
 \* Rewards . Return
 TraceReturn ==
     /\ IsEvent("Return")
-    /\ LET ro == IF pc = "conditioned" THEN RewardOracle(desc, orc, prob, rstrat, prune)
-                 ELSE [ok |-> FALSE]
-           o  == [k |-> "Return", cls |-> "", rep |-> Ev.rep, prob |-> Ev.prob, rstrat |-> Ev.rstrat,
+    /\ LET o  == [k |-> "Return", cls |-> "", rep |-> Ev.rep, prob |-> Ev.prob, rstrat |-> Ev.rstrat,
                   rew |-> Ev.rew, fstrat |-> Ev.fstrat,
                   dom |-> IF pc = "conditioned" THEN ro.Dom ELSE {},
                   rtol |-> IF ro.ok THEN ro.tol ELSE <<>>]
@@ -153,7 +168,7 @@ TraceReturn ==
                 \cup (IF Has(outs, <<dcur, prune>>) THEN {"C10.repeat"} ELSE {})
            /\ rew' = Ev.rew /\ fstrat' = Ev.fstrat
            /\ Outcome(o)
-    /\ UNCHANGED <<desc, orc, prune, nodes, prob, rstrat, mode, dcur, orcs, snaps>>
+    /\ UNCHANGED <<desc, orc, prune, nodes, prob, rstrat, ro, mode, dcur, orcs, reached, snaps>>
 
 TraceRaise ==
     /\ IsEvent("Raise")
@@ -167,7 +182,7 @@ TraceRaise ==
            /\ notes' = notes \cup (IF expected THEN {"C06.nosolution"} ELSE {})
                 \cup (IF Has(outs, <<dcur, prune>>) THEN {"C10.repeat"} ELSE {})
            /\ Outcome(o)
-    /\ UNCHANGED <<desc, orc, prune, nodes, prob, rstrat, rew, fstrat, mode, dcur, orcs, snaps>>
+    /\ UNCHANGED <<desc, orc, prune, nodes, prob, rstrat, rew, fstrat, ro, mode, dcur, orcs, reached, snaps>>
 
 \* a stopping game must be solved; outside the stopping domain divergence of the
 \* reward phase is allowed (action Diverge of module Solver)
@@ -178,19 +193,19 @@ TraceTimeout ==
        IN  /\ fails' = fails \cup (IF allowed THEN {} ELSE {"C06.Timeout pc=" \o pc})
            /\ notes' = notes \cup (IF allowed THEN {"C06.divergedOutsideDomain"} ELSE {})
            /\ Outcome(o)
-    /\ UNCHANGED <<desc, orc, prune, nodes, prob, rstrat, rew, fstrat, mode, dcur, orcs, snaps>>
+    /\ UNCHANGED <<desc, orc, prune, nodes, prob, rstrat, rew, fstrat, ro, mode, dcur, orcs, reached, snaps>>
 
 TraceEnd ==
     /\ IsEvent("End")
     /\ pc' = "idle"
-    /\ UNCHANGED <<desc, orc, prune, nodes, prob, rstrat, rew, fstrat, res, hist,
-                   fails, notes, mode, dcur, orcs, outs, snaps>>
+    /\ UNCHANGED <<desc, orc, prune, nodes, prob, rstrat, rew, fstrat, res, ro, hist,
+                   fails, notes, mode, dcur, orcs, outs, reached, snaps>>
 
 Verdict ==
     /\ l = Len(S.events) + 1
     /\ PrintT(ToJson([tid |-> S.tid, fails |-> fails, notes |-> notes]))
     /\ l' = l + 1
-    /\ UNCHANGED <<svars, tid, fails, notes, mode, dcur, orcs, outs, snaps>>
+    /\ UNCHANGED <<svars, tid, fails, notes, mode, dcur, orcs, outs, reached, snaps>>
 
 TraceNext ==
     \/ TraceSnap \/ TraceCall \/ TraceReach \/ TraceCond
